@@ -207,6 +207,9 @@ pub struct SegSource {
     starts: Vec<u64>,
     total: u64,
     pos: u64,
+    /// (segment, offset within the unit, width): that field of every unit shows the unit's index in decimal, so
+    /// that a record read from the wrong place is recognised
+    index_field: Option<(usize, usize, usize)>,
 }
 
 impl SegSource {
@@ -217,7 +220,12 @@ impl SegSource {
             starts.push(t);
             t += u.len() as u64 * n;
         }
-        SegSource { segs, starts, total: t, pos: 0 }
+        SegSource { segs, starts, total: t, pos: 0, index_field: None }
+    }
+
+    pub fn with_index_field(mut self, seg: usize, offset: usize, width: usize) -> SegSource {
+        self.index_field = Some((seg, offset, width));
+        self
     }
 }
 
@@ -239,6 +247,16 @@ impl Read for SegSource {
             let off = ((self.pos - self.starts[si]) % unit.len() as u64) as usize;
             let k = (unit.len() - off).min(buf.len() - done).min((seg_end - self.pos) as usize);
             buf[done..done + k].copy_from_slice(&unit[off..off + k]);
+            if let Some((fseg, foff, fw)) = self.index_field {
+                if fseg == si && off < foff + fw && off + k > foff {
+                    // patch the part of the index field that lies in the copied range
+                    let unit_no = (self.pos - self.starts[si]) / unit.len() as u64;
+                    let digits = format!("{:0width$}", unit_no, width = fw).into_bytes();
+                    for j in foff.max(off)..(foff + fw).min(off + k) {
+                        buf[done + j - off] = digits[j - foff];
+                    }
+                }
+            }
             done += k;
             self.pos += k as u64;
         }
@@ -272,6 +290,10 @@ pub struct BigCase {
     /// sequence length of the long records
     pub seq_len: u32,
     pub cap: usize,
+    /// variant 0: the record length is made a power of two (2^16 or 2^20 bytes), so that there are records exactly
+    /// 2^32 bytes apart (seek distances that only differ in the upper 32 bits)
+    #[serde(default)]
+    pub pow2: bool,
 }
 
 pub struct Beyond4G {
@@ -287,7 +309,7 @@ impl Prop for Beyond4G {
         let vs: Vec<u8> = self.variants.to_vec();
         let errors = self.errors;
         boxed(
-            (prop::sample::select(vs), any::<bool>(), any::<bool>(), prop_oneof![1 => 60_000u32..70_000, 2 => 500_000u32..1_100_000], prop_oneof![1 => Just(1usize << 16), 1 => Just(1usize << 22)]).prop_map(move |(variant, fq, crlf, seq_len, cap)| {
+            (prop::sample::select(vs), any::<bool>(), any::<bool>(), prop_oneof![1 => 60_000u32..70_000, 2 => 500_000u32..1_100_000], prop_oneof![1 => Just(1usize << 16), 1 => Just(1usize << 22)], prop::bool::weighted(0.7)).prop_map(move |(variant, fq, crlf, seq_len, cap, pow2)| {
                 let format = match variant {
                     1 => Format::Fasta,
                     2 => Format::Fastq,
@@ -300,7 +322,7 @@ impl Prop for Beyond4G {
                         }
                     }
                 };
-                BigCase { format, variant, crlf, seq_len, cap }
+                BigCase { format, variant, crlf, seq_len, cap, pow2 }
             }),
         )
     }
@@ -310,9 +332,22 @@ impl Prop for Beyond4G {
         let t: &[u8] = if c.crlf { b"\r\n" } else { b"\n" };
         ctx.nontrivial(c, c);
         // the unit record, its number of lines, and the prefix
-        let seq_len = if c.variant == 0 { c.seq_len as usize } else { 1 };
-        let mut unit = Vec::with_capacity(2 * seq_len + 32);
-        let head: &[u8] = b"rec with a description";
+        let head: &[u8] = b"rec000000000000 with a description";
+        let mut seq_len = if c.variant == 0 { c.seq_len as usize } else { 1 };
+        if c.variant == 0 && c.pow2 {
+            // total unit length 2^16 (sequence about 60 kB) or 2^20
+            let target: usize = if seq_len < 100_000 { 1 << 16 } else { 1 << 20 };
+            let fixed = 1 + head.len() + t.len() + t.len();
+            seq_len = match c.format {
+                Format::Fasta => target - fixed,
+                // '@' head t seq t '+' t qual t
+                Format::Fastq => {
+                    let fixed = fixed + 1 + 2 * t.len();
+                    (target - fixed) / 2
+                }
+            };
+        }
+        let mut unit = Vec::with_capacity(2 * seq_len + 64);
         let lines_per_unit: u64;
         match c.format {
             Format::Fasta => {
@@ -336,7 +371,15 @@ impl Prop for Beyond4G {
                 lines_per_unit = 4;
             }
         }
+        if c.variant == 0 && c.pow2 && c.format == Format::Fastq && unit.len() % 2 == 1 {
+            // (an odd remainder: lengthen the header by one byte instead - cannot happen with the fixed head, kept as a guard)
+            fail!("harness/beyond-4g", "unit length {} is not a power of two", unit.len());
+        }
         let u = unit.len() as u64;
+        if c.variant == 0 && c.pow2 {
+            ensure!(u.is_power_of_two(), "harness/beyond-4g", "harness: unit length {} is not a power of two", u);
+            ctx.class("record length is a power of two (records exactly 2^32 bytes apart exist)");
+        }
         let (prefix_lines, prefix_bytes, n_units): (u64, u64, u64) = match c.variant {
             0 => (0, 0, FOUR_G / u + 6),
             1 => (FOUR_G + 3, (FOUR_G + 3) * t.len() as u64, if self.errors { 0 } else { 5 }),
@@ -360,7 +403,9 @@ impl Prop for Beyond4G {
             // a format error at the very end: line number / id must still be right
             segs.push((bad_tail.to_vec(), 1));
         }
-        let src = SegSource::new(segs);
+        let rec_seg = if prefix_lines > 0 { 1 } else { 0 };
+        let src = if n_units > 0 { SegSource::new(segs).with_index_field(rec_seg, 4, 12) } else { SegSource::new(segs) };
+        let head_of = |k: u64| -> Vec<u8> { format!("rec{:012} with a description", k).into_bytes() };
         let loc = |k: u64| -> (u64, u64) { (prefix_lines + k * lines_per_unit + 1, prefix_bytes + k * u) };
         let seq_of = &unit[1 + head.len() + t.len()..1 + head.len() + t.len() + seq_len];
         macro_rules! go {
@@ -368,6 +413,7 @@ impl Prop for Beyond4G {
                 use $m::Record;
                 let mut rdr = $m::Reader::with_capacity(src, c.cap);
                 let mut k = 0u64;
+                let mut want_head = head_of(0);
                 let term: Option<NErr> = loop {
                     match rdr.next() {
                         None => break None,
@@ -376,13 +422,22 @@ impl Prop for Beyond4G {
                             ensure!(k < n_units, format!("{}/beyond-4g/extra-record", f), "record {} returned, the input has only {}", k, n_units);
                             // cheap check always, full comparison near the ends and every 4096th record
                             let full = k < 3 || k + 8 >= n_units || k % 4096 == 0;
-                            let ok = r.head() == head && if full { &r.seq()[..] == seq_of } else { r.seq().len() >= seq_len };
-                            ensure!(ok, format!("{}/beyond-4g/wrong-record", f), "record {}: head {:?}, {} sequence bytes; expected head {:?}, {} sequence bytes", k, B::new(r.head()), r.seq().len(), B::new(head), seq_len);
+                            let ok = r.head() == &want_head[..] && if full { &r.seq()[..] == seq_of } else { r.seq().len() >= seq_len };
+                            ensure!(ok, format!("{}/beyond-4g/wrong-record", f), "record {}: head {:?}, {} sequence bytes; expected head {:?}, {} sequence bytes", k, B::new(r.head()), r.seq().len(), B::new(&want_head), seq_len);
                         }
                     }
                     let p: (u64, u64) = $getpos(&rdr);
                     ensure!(p == loc(k), format!("{}/beyond-4g/position-differs", f), "after record {}: position (line {}, byte {}), true location (line {}, byte {})", k, p.0, p.1, loc(k).0, loc(k).1);
                     k += 1;
+                    // decimal increment of the 12-digit index in the expected header
+                    for d in want_head[3..15].iter_mut().rev() {
+                        if *d == b'9' {
+                            *d = b'0';
+                        } else {
+                            *d += 1;
+                            break;
+                        }
+                    }
                 };
                 ensure!(k == n_units, format!("{}/beyond-4g/records-lost", f), "{} records returned, the input has {}", k, n_units);
                 if self.errors {
@@ -394,12 +449,20 @@ impl Prop for Beyond4G {
                 } else {
                     ensure!(term.is_none(), format!("{}/beyond-4g/spurious-error", f), "well-formed input, reading ended with {:?}", term);
                     // seeks: beyond 4 GiB (or 2^32 lines), back to the start, to the very last record
-                    for &j in &[n_units - 2, 1, n_units - 1, n_units / 2 + 1] {
+                    let mut targets: Vec<u64> = vec![n_units - 2, 1, n_units - 1, n_units / 2 + 1];
+                    if c.variant == 0 && c.pow2 {
+                        // after each of these seeks two records are read, so the reader stands on target + 1; the next
+                        // target is exactly 2^32 bytes (+ one or two records) away: distances that differ from an
+                        // in-buffer distance only in their upper 32 bits
+                        let d = FOUR_G / u;
+                        targets = vec![1, 1 + 1 + d, 3 + d, 3, 2 + d + 1, 2, n_units - 1, n_units - 1 - d, n_units - 2];
+                    }
+                    for &j in &targets {
                         let (line, byte) = loc(j);
                         ensure!(rdr.seek(&$m::Position::new(line, byte)).is_ok(), format!("{}/beyond-4g/seek-failed", f), "seek to record {} (line {}, byte {}) failed", j, line, byte);
                         for jj in j..(j + 2).min(n_units) {
                             match rdr.next() {
-                                Some(Ok(r)) => ensure!(r.head() == head && &r.seq()[..] == seq_of, format!("{}/beyond-4g/wrong-record-after-seek", f), "after seeking to record {}: head {:?}, {} sequence bytes", j, B::new(r.head()), r.seq().len()),
+                                Some(Ok(r)) => ensure!(r.head() == &head_of(jj)[..] && &r.seq()[..] == seq_of, format!("{}/beyond-4g/wrong-record-after-seek", f), "after seeking to record {} (byte {}): read a record with head {:?} ({} sequence bytes), expected record {} = {:?}", j, byte, B::new(r.head()), r.seq().len(), jj, B(head_of(jj))),
                                 other => fail!(format!("{}/beyond-4g/no-record-after-seek", f), "after seeking to record {} (line {}, byte {}): next() gave {:?}", j, line, byte, other.map(|x| x.map(|_| ()).map_err(|e| e.to_string()))),
                             }
                             let p: (u64, u64) = $getpos(&rdr);
@@ -417,4 +480,59 @@ impl Prop for Beyond4G {
     }
 }
 
-pub const RULE_LARGE: &str = "Sub-check large-coordinates: documents whose last 2..5 records lie behind 65 520..262 160 lines (FASTA: blank lines, or one record with that many one-base sequence lines; FASTQ: tiny records), LF / CRLF, capacities 3 .. 1 MiB: every record and every reported position equals the model's, seeks to the last records (line > 65 535), back to the first and to the middle return the right records with the right positions; C17 variant: the document ends in a format error whose line number exceeds 65 535 and all error fields equal the model's. Sub-check beyond-4-GiB: a generated periodic source (never held in memory) of more than 4 GiB of records with one long line each (quick tier: 2 cases; thorough tier also 2^32 + 3 blank FASTA lines and 2^30 + 2 tiny FASTQ records, i.e. line numbers beyond 2^32): positions follow the analytic location of the k-th record, seeks to positions beyond 4 GiB / 2^32 lines work, the C17 variant ends in an invalid record whose reported line is exact.";
+/// The fixed list of beyond-4-GiB cases of a tier (both formats and both record-length kinds are always present;
+/// line terminator, sequence length and capacity vary with the seed), run in parallel.
+pub fn run_beyond(run: &mut crate::engine::Run, errors: bool) {
+    let seed = run.seed;
+    let quick = run.tier == Tier::Quick;
+    let mut cases: Vec<BigCase> = Vec::new();
+    let mut push = |format: Format, variant: u8, pow2: bool, i: u64| {
+        let x = seed.wrapping_mul(0x9e3779b97f4a7c15).wrapping_add(i.wrapping_mul(0xd1342543de82ef95));
+        let seq_len = if (x >> 8) & 1 == 0 { 60_000 + ((x >> 16) % 10_000) as u32 } else { 500_000 + ((x >> 16) % 600_000) as u32 };
+        cases.push(BigCase { format, variant, crlf: (x >> 4) & 1 == 1, seq_len, cap: if (x >> 5) & 1 == 1 { 1 << 16 } else { 1 << 22 }, pow2 });
+    };
+    if errors {
+        // (only FASTQ input can have a format error behind records)
+        push(Format::Fastq, 0, true, 0);
+        push(Format::Fastq, 0, false, 1);
+        if !quick {
+            push(Format::Fastq, 0, true, 2);
+            push(Format::Fasta, 1, false, 3);
+            push(Format::Fastq, 2, false, 4);
+        }
+    } else {
+        push(Format::Fasta, 0, true, 0);
+        push(Format::Fastq, 0, true, 1);
+        push(if seed & 1 == 0 { Format::Fasta } else { Format::Fastq }, 0, false, 2);
+        if !quick {
+            for i in 3..9 {
+                push(if i & 1 == 0 { Format::Fasta } else { Format::Fastq }, 0, i % 3 != 0, i);
+            }
+            push(Format::Fasta, 1, false, 9);
+            push(Format::Fasta, 1, false, 10);
+            push(Format::Fastq, 2, false, 11);
+        }
+    }
+    let prop = Beyond4G { errors, variants: &[0] };
+    // (each case reads 4..7 GB: minutes on a loaded machine; the per-case watchdog is widened for this sub-check)
+    let old_limit = std::env::var("VERIF_CASE_TIMEOUT").ok();
+    std::env::set_var("VERIF_CASE_TIMEOUT", "2400");
+    run.replays("beyond-4-gib", &prop);
+    let n = cases.len() as u64;
+    run.exhaustive_par(
+        "beyond-4-gib",
+        &format!("{} fixed configurations of a generated source of more than 4 GiB (formats x record length a power of two or not x capacity 64 KiB / 4 MiB x LF / CRLF{})", n, if quick { "" } else { "; plus 2^32 + 3 blank FASTA lines and 2^30 + 2 tiny FASTQ records" }),
+        n,
+        |i, ctx| {
+            let c = &cases[i as usize];
+            ctx.eval();
+            crate::engine::guarded(|| prop.check(c, ctx)).map_err(|f| (serde_json::to_value(c).unwrap_or_default(), f))
+        },
+    );
+    match old_limit {
+        Some(v) => std::env::set_var("VERIF_CASE_TIMEOUT", v),
+        None => std::env::remove_var("VERIF_CASE_TIMEOUT"),
+    }
+}
+
+pub const RULE_LARGE: &str = "Sub-check large-coordinates: documents whose last 2..5 records lie behind 65 520..262 160 lines (FASTA: blank lines, or one record with that many one-base sequence lines; FASTQ: tiny records), LF / CRLF, capacities 3 .. 1 MiB: every record and every reported position equals the model's, seeks to the last records (line > 65 535), back to the first and to the middle return the right records with the right positions; C17 variant: the document ends in a format error whose line number exceeds 65 535 and all error fields equal the model's. Sub-check beyond-4-GiB: a generated periodic source (never held in memory) of more than 4 GiB of records with one long line each (quick tier: 2 cases; thorough tier also 2^32 + 3 blank FASTA lines and 2^30 + 2 tiny FASTQ records, i.e. line numbers beyond 2^32): every record carries its index in the header; positions follow the analytic location of the k-th record, seeks to positions beyond 4 GiB / 2^32 lines return the record with the right index - including (record length a power of two) seeks whose distance from the current position is exactly 2^32 bytes plus an in-buffer distance -, the C17 variant ends in an invalid record whose reported line is exact.";
